@@ -284,9 +284,102 @@ def _split(n, sep, maxsplit=-1, from_right=False):
     return ListVal([_back(x) for x in out])
 
 
+def _positions(n):
+    """expand a normalised string to one entry per character position: a literal char, or (field term, width, digit index)"""
+    out = []
+    for sg in n.parts:
+        if isinstance(sg, str):
+            out.append(sg)
+        elif sg.width is None:
+            out.append(None)           # unknown extent from here on
+            break
+        else:
+            out.extend((sg.e, sg.width, d) for d in range(sg.width))
+    return out
+
+
+def _digit(e, width, d):
+    return (e / (10 ** (width - 1 - d))) % 10
+
+
+def contains(I, ctx, s, x):
+    """x in s for a concrete needle: some alignment where every needle character equals the character at that position (a digit
+    of a field is the corresponding decimal digit of its value)"""
+    x = B.enum_str(x)
+    if not isinstance(x, str):
+        raise Unsupported(f"{x!r} in a format string")
+    n = norm(I, ctx, s)
+    if not any(c in _DIGITS for c in x):
+        runs = "".join(c if isinstance(c, str) else "\x00" for c in n.parts)
+        return x in runs
+    pos = _positions(n)
+    if None in pos:
+        raise Unsupported("substring test on a string ending in a numeral of unknown length")
+    alts = []
+    for start in range(0, len(pos) - len(x) + 1):
+        conds, ok = [], True
+        for off, ch in enumerate(x):
+            p = pos[start + off]
+            if isinstance(p, str):
+                if p != ch:
+                    ok = False
+                    break
+            else:
+                if ch not in _DIGITS:
+                    ok = False
+                    break
+                conds.append(_digit(p[0], p[1], p[2]) == int(ch))
+        if ok:
+            alts.append(z3.And(*conds) if conds else z3.BoolVal(True))
+    if not alts:
+        return False
+    f = smt.simp(z3.Or(*alts))
+    return True if z3.is_true(f) else False if z3.is_false(f) else Sym(f)
+
+
+def slice_(I, ctx, s, lo, hi):
+    """s[lo:hi] with concrete bounds falling on segment boundaries"""
+    n = norm(I, ctx, s)
+    pos = _positions(n)
+    if None in pos:
+        total = None
+    else:
+        total = len(pos)
+    lo = 0 if lo is None else lo
+    if lo < 0 or (hi is not None and hi < 0):
+        if total is None:
+            raise Unsupported("negative slice bound on a string of unknown length")
+        lo = max(total + lo, 0) if lo < 0 else lo
+        hi = max(total + hi, 0) if hi is not None and hi < 0 else hi
+    out, at = [], 0
+    for sg in n.parts:
+        w = 1 if isinstance(sg, str) else sg.width
+        if w is None:
+            if hi is None and at >= lo:
+                out.append(sg)
+                break
+            raise Unsupported("slice through a numeral of unknown length")
+        a, b = at, at + w
+        if b <= lo or (hi is not None and a >= hi):
+            at = b
+            continue
+        if a >= lo and (hi is None or b <= hi):
+            out.append(sg)
+        else:
+            # part of a field: its digits as a narrower field
+            d0, d1 = max(lo, a) - a, (min(hi, b) if hi is not None else b) - a
+            k = d1 - d0
+            out.append(Dec((sg.e / (10 ** (w - d1))) % (10 ** k), k))
+        at = b
+    return _back(NFmt(out))
+
+
 def str_method(I, ctx, s, name):
     def B_(fn):
         return Builtin("str." + name, fn)
+    from .values import IsoStr
+    if isinstance(s, IsoStr):
+        s = norm(I, ctx, s)
     if not isinstance(s, FmtStr):
         return None
     if name in ("split", "rsplit"):
@@ -294,13 +387,7 @@ def str_method(I, ctx, s, name):
     if name in ("lower", "upper"):
         return B_(lambda ctx2: _back(NFmt([getattr(c, name)() if isinstance(c, str) else c for c in norm(I, ctx2, s).parts])))
     if name == "__contains__":
-        def cont(ctx2, x):
-            x = B.enum_str(x)
-            if not isinstance(x, str) or any(c in _DIGITS for c in x):
-                raise Unsupported(f"{x!r} in a format string")
-            runs = "".join(c if isinstance(c, str) else "\x00" for c in norm(I, ctx2, s).parts)
-            return x in runs
-        return B_(cont)
+        return B_(lambda ctx2, x: contains(I, ctx2, s, x))
     if name == "__eq__":
         return B_(lambda ctx2, x: B.eq_formula(I, ctx2, s, x))
     if name == "__len__":
